@@ -28,4 +28,18 @@ CONFIG = {
         "quick": {"parts": [part("TestC05Expr", 4, 15000), part("TestC05Seq", 4, 15000), part("TestC05SeqExhaustive", 1, 1)]},
         "thorough": {"parts": [part("TestC05Expr", 16, 300000, timeout=3000), part("TestC05Seq", 16, 300000, timeout=3000), part("TestC05SeqExhaustive", 1, 1)]},
     },
+    "C03": {
+        "level": "exploration",
+        "rule": "rapid-generated schema (1-2 tables, incl. PERCENTILE and IF fields) x point sequence x a PAIR of independently drawn storage schedules (none / flush every k-th insert / timer-driven with min+max latency / >=10 forced flushes (reaches the every-10th truncating flush) / a few forced flushes; optional clean restarts; optional memory cap => sorted flushes) x 1-4 queries from the full query grammar (field subsets, derived/shifted fields, ASOF/UNTIL, WHERE, GROUP BY, stride, crosstab, HAVING, ORDER, LIMIT, subqueries). Metamorphic oracle: every query returns the same rows under schedule A and schedule B (memstore-inclusive), the same rows before and after a final FlushAll, and disk-only == memstore-inclusive right after that flush. Non-trivial: the two schedules differ and at least one flush falls strictly inside the point sequence (data split between file and memory).",
+        "assumptions": ["virtual clocks are aligned to the newest generated timestamp before querying (a restart resets the virtual clock)", "LIMIT/OFFSET results are compared by count (and by ORDER BY key values when ordered) because ties make the slice ambiguous", "constant operands are allowed in queries here: both schedules see the same gap-row artefact"],
+        "quick": {"parts": [part("TestC03", 16, 25)]},
+        "thorough": {"parts": [part("TestC03", 32, 400, timeout=3000)]},
+    },
+    "C04": {
+        "level": "exploration",
+        "rule": "rapid-generated dataset + storage split (memory only / disk only / split by forced flushes) x 1-3 queries Q from the full grammar (ASOF/UNTIL biased to end before the newest stored period, aligned and unaligned; strides, shifts, crosstab, subqueries; with and without memstore) x probes (SELECT * of every table plus one generated query). Differential oracle: every probe returns the same rows before Q, after each Q, after a following FlushAll memstore-inclusive and disk-only; Q's own result and errors are irrelevant. Non-trivial: >=2 points and (some Q has an UNTIL before the newest point while data is still in the memstore, or Q regroups).",
+        "assumptions": ["no insert happens between the probes (the harness owns the only writer)", "clock pinned to the newest generated timestamp"],
+        "quick": {"parts": [part("TestC04", 16, 30)]},
+        "thorough": {"parts": [part("TestC04", 32, 500, timeout=3000)]},
+    },
 }
